@@ -7,6 +7,8 @@ orcc is built from the tree and run on a corpus (.orc text in harness/c07/corpus
       with symbolic array contents and parameter values; its code pointer is the generated backup function of the same
       file (that is ORC_CODE=backup); memory afterwards is compared with the composition oracle of C02 by the solver
   (3) the same call on the -DDISABLE_ORC body
+  (1b) the bytecode array embedded in each generated wrapper is fed to the real orc_program_new_from_static_bytecode and the
+      rebuilt program is compared with the parsed one                                           [concrete gate; symbolic: C13]
   (4) orc_memcpy / orc_memset of the checked-in orcfunctions.c, wrapper + backup, against memcpy/memset semantics
 JIT and emulate modes differ from (2) only in the function the wrapper jumps to with the executor it filled in; those
 functions are tied to the same oracle by C01 (JIT) and C02 (orc_executor_emulate)."""
@@ -299,9 +301,9 @@ def main():
     subprocess.check_call(['gcc'] + b.cflags + [src, '-o', oe])
     off = json.loads(subprocess.check_output([oe]))
     corpus = open(CORPUS).read()
-    # --compat 0.4.5 refuses float/64-bit parameters and x2/x4 instructions by design (REQUIRE in orcc): those functions are left out of that corpus
+    # --compat 0.4.5 refuses float/64-bit parameters x2/x4 instructions, .n bounds and 64-bit constants by design (REQUIRE in orcc): those functions are left out of that corpus
     blocks = re.split(r'(?m)^(?=\.function)', corpus)
-    old_ok = ''.join(bk for bk in blocks if not re.search(r'\.(floatparam|longparam|doubleparam)|^x[24] ', bk, re.M))
+    old_ok = ''.join(bk for bk in blocks if not re.search(r'\.(floatparam|longparam|doubleparam)|^x[24] |\.n (mult|min|max)|\.const 8', bk, re.M))
     variants = {'lazy': corpus, 'eager': '.init c07_init\n' + corpus, 'compat': old_ok}
     # reference programs (parsed by the real parser, compiled once to get the code-object view the oracle uses)
     r = subprocess.run([exe, 'parse', CORPUS], capture_output=True, text=True)
@@ -336,6 +338,27 @@ def main():
             else:
                 first = [l for l in err.splitlines() if 'error' in l][:2]
                 rep.violated('c07.compiles|%s %s' % (tag, dn), '%s: orcc %s output does not compile%s: %s' % (job, ' '.join(args) or '(default)', ' with -DDISABLE_ORC' if defs else '', ' / '.join(first)[:400]), name=job)
+    # ---- (1b) the bytecode embedded in the generated wrapper rebuilds the program that was parsed -----------------------------
+    if 'default' in outs:
+        gen = open(outs['default'][0]).read()
+        chunks = re.split(r'(?m)^/\* (\w+) \*/$', gen)
+        bodies = dict(zip(chunks[1::2], chunks[2::2]))
+        for fname, recipe in recipes:
+            job = 'c07.bytecode.' + fname
+            mm = re.search(r'static const orc_uint8 bc\[\] = \{([^}]*)\}', bodies.get(fname, ''))
+            if not mm:
+                rep.inconc(job, 'no embedded bytecode found in the generated wrapper')
+                continue
+            hexs = ''.join('%02x' % int(x) for x in re.findall(r'\d+', mm.group(1)))
+            r3 = subprocess.run([exe, 'frombc', hexs], capture_output=True, text=True, timeout=60)
+            def canon(txt):   # constant values are compared modulo the variable size (bits above it are never read)
+                return re.sub(r'(?m)^var const (\d) (\S+) ([0-9a-f]+)$', lambda m_: 'var const %s %s %x' % (m_.group(1), m_.group(2), int(m_.group(3), 16) & ((1 << (8 * int(m_.group(1)))) - 1)), txt.strip())
+            got, recipe = canon(r3.stdout), canon(recipe)
+            if r3.returncode == 0 and got == recipe:
+                rep.held(job, n_props=1, engine='native')
+            else:
+                diff = [(a, b_) for a, b_ in zip(got.splitlines() + ['<missing>'] * 50, recipe.strip().splitlines()) if a != b_][:2]
+                rep.violated('c07.bytecode|%s' % fname, '%s: the program rebuilt from the bytecode embedded in the wrapper differs from the parsed program (rc=%d): %s' % (job, r3.returncode, diff or got[:200]), name=job)
     # ---- (2)(3) symbolic runs ---------------------------------------------------------------------------------------------
     runs = [('default', 'probe', []), ('default', 'wrapper', []), ('default', 'noorc', ['DISABLE_ORC']), ('eager', 'probe', []), ('inline', 'probe', [])]
     if t != 'quick':
@@ -360,7 +383,8 @@ def main():
             continue
         for fname, prog in sorted(compiled.items()):
             job = 'c07.sym.%s.%s.%s' % (tag, mode, fname)
-            if mode != 'probe' and any(optable[i['op']]['flags'] & FLOAT for i in prog['orccode']['insns']):
+            big = (prog['orccode'].get('constant_n') or 0) > 16 or (prog['orccode'].get('constant_m') or 0) > 16
+            if mode != 'probe' and (big or any(optable[i['op']]['flags'] & FLOAT for i in prog['orccode']['insns'])):
                 continue      # float arithmetic: the bodies are C04's subject (NaN payloads, denormals); here only the compile gate
             if fname not in protos:
                 rep.violated('c07.header|%s missing' % fname, '%s: the header of option set %s declares no prototype for %s' % (job, tag, fname), name=job)
